@@ -173,6 +173,22 @@ Theorem C04_probe_oracle_is_the_property : forall w q,
 Proof. exact probe_ok_iff. Qed.
 Print Assumptions C04_probe_oracle_is_the_property.
 
+(* Through a downstream proxy: EVERY 2xx answer (RFC 7231 4.3.6) announces the
+   tunnel — no body, what follows the head is payload — and the client is told
+   the downstream proxy's status.  [downstream_any_2xx] is read from connect()
+   by harness/cmd/gen_c04; with a test for 200 only, 201 is not a tunnel. *)
+Theorem C04_downstream_2xx_is_tunnel :
+  (forall st, (200 <= st < 300)%N -> connect_downstream st = mkDown st true) /\
+  downstream_is_tunnel false 201 = false.
+Proof. exact (conj downstream_2xx_is_tunnel only_200_refuted). Qed.
+Print Assumptions C04_downstream_2xx_is_tunnel.
+
+(* a refusal of the downstream proxy is relayed: same status, whole body, end *)
+Theorem C04_downstream_refusal_oracle : forall a b c d p e,
+  down_ok a b c d p e = true <-> a = b /\ c = d /\ p = true /\ e = true.
+Proof. exact down_ok_iff. Qed.
+Print Assumptions C04_downstream_refusal_oracle.
+
 (* ---------------- the code as it was -------------- *)
 
 (* D5: a byte that arrived with the CONNECT head stays in the bufio.Writer. *)
